@@ -185,5 +185,82 @@ package decoder
 //@ func FormatInformation_NumBitsDiffering(a uint, b uint) (r int)
 //@   property C05
 //@   mode bv
-//@   ensures r == hamming(a, b, 64)
+//@   ensures r == hamming(a, b, 64) && 0 <= r && r <= 64
 //@   modifies nothing
+
+// ---------------------------------------------------------------- nearest-entry searches over the BCH tables (C05)
+// hd(a, b): Hamming distance of two words as the search loops compute it
+//@ spec func hdv(bits int, i int) int = hamming(bits, VERSION_DECODE_INFO[i], 64)
+
+//@ lemma hammingSelf(a int)
+//@   property C05
+//@   mode bv
+//@   ensures hamming(a, a, 64) == 0
+
+//@ func Version_GetVersionForNumber(versionNumber int) (r *Version, e error)
+//@   property C05 C06
+//@   globals VERSIONS
+//@   ensures (versionNumber < 1 || versionNumber > 40) == (e != nil)
+//@   ensures e == nil ==> r == VERSIONS[versionNumber-1]
+//@   ensures e != nil ==> r == nil
+//@   modifies nothing
+
+// a word within distance 3 of exactly one table entry decodes to that entry's version (with versionDistance >= 8 and the
+// triangle inequality every word within distance 3 of an entry is such a word); a word farther than 3 from every entry is refused
+//@ func Version_decodeVersionInformation(versionBits int) (r *Version, e error)
+//@   property C05 C06
+//@   mode bv
+//@   opt opaque=hamming
+//@   globals VERSION_DECODE_INFO, VERSIONS
+//@   ensures (forall i int :: 0 <= i && i < 34 ==> hdv(versionBits, i) > 3) ==> e != nil && r == nil
+//@   ensures forall i int :: 0 <= i && i < 34 && hdv(versionBits, i) <= 3 && (forall j int :: 0 <= j && j < 34 && j != i ==> hdv(versionBits, j) > 3) ==> e == nil && r == VERSIONS[i + 6]
+//@   ensures e == nil ==> r != nil
+//@   modifies nothing
+//@   loop 0: invariant -1 <= rangeindex && rangeindex < 34 && 0 <= bestDifference && bestDifference <= 2147483647
+//@   loop 0: invariant forall k int :: 0 <= k && k <= rangeindex ==> hdv(versionBits, k) >= bestDifference
+//@   loop 0: invariant bestDifference < 2147483647 ==> 7 <= bestVersion && bestVersion <= rangeindex + 7 && hdv(versionBits, bestVersion - 7) == bestDifference
+//@   loop 0: invariant bestDifference == 2147483647 ==> rangeindex == -1
+//@   loop 0: use hammingSelf(versionBits)
+//@   loop 0: decreases 34 - rangeindex
+
+//@ spec func hdf(w uint, i int) int = hamming(w, formatInfoDecodeLookup[i][0], 64)
+//@ pred fiOf(r *FormatInformation, w uint) = r != nil && int(r.dataMask) == int(w & 7) && int(r.errorCorrectionLevel) == int((w >> 3) & 3)
+
+//@ func newFormatInformation(formatInfo uint) (r *FormatInformation)
+//@   property C05 C06
+//@   mode bv
+//@   ensures fiOf(r, formatInfo) && fresh(r)
+//@   modifies nothing
+
+// a pair of words of which one is within distance 3 of exactly one table entry (and neither is within 3 of another)
+// decodes to that entry's level and mask; words farther than 3 from every entry give nil
+//@ func doDecodeFormatInformation(maskedFormatInfo1 uint, maskedFormatInfo2 uint) (r *FormatInformation)
+//@   property C05 C06
+//@   mode bv
+//@   opt opaque=hamming
+//@   globals formatInfoDecodeLookup
+//@   ensures (forall i int :: 0 <= i && i < 32 ==> hdf(maskedFormatInfo1, i) > 3 && hdf(maskedFormatInfo2, i) > 3) ==> r == nil
+//@   ensures forall i int :: 0 <= i && i < 32 && (hdf(maskedFormatInfo1, i) <= 3 || hdf(maskedFormatInfo2, i) <= 3) && (forall j int :: 0 <= j && j < 32 && j != i ==> hdf(maskedFormatInfo1, j) > 3 && hdf(maskedFormatInfo2, j) > 3) ==> fiOf(r, formatInfoDecodeLookup[i][1])
+//@   modifies nothing
+//@   loop 0: invariant -1 <= rangeindex && rangeindex < 32 && 0 <= bestDifference && bestDifference <= 2147483647
+//@   loop 0: invariant forall k int :: 0 <= k && k <= rangeindex ==> hdf(maskedFormatInfo1, k) >= bestDifference && hdf(maskedFormatInfo2, k) >= bestDifference
+//@   loop 0: invariant bestDifference < 2147483647 ==> exists k int :: 0 <= k && k <= rangeindex && bestFormatInfo == formatInfoDecodeLookup[k][1] && (hdf(maskedFormatInfo1, k) == bestDifference || hdf(maskedFormatInfo2, k) == bestDifference)
+//@   loop 0: invariant bestDifference == 2147483647 ==> rangeindex == -1
+//@   loop 0: use hammingSelf(int(maskedFormatInfo1))
+//@   loop 0: use hammingSelf(int(maskedFormatInfo2))
+//@   loop 0: decreases 32 - rangeindex
+
+// correctErrors hands the Reed-Solomon decoder every codeword of the block, widened to 0..255, in order, in storage of its own,
+// and afterwards copies back the data codewords only; on a decoding failure the block is left as it was
+//@ func (this *Decoder) correctErrors(codewordBytes []byte, numDataCodewords int) (e error)
+//@   property C05 C06
+//@   mode bv
+//@   requires this.rsDecoder != nil && 0 <= numDataCodewords && numDataCodewords <= len(codewordBytes)
+//@   assert call(Decode,0): len(codewordsInts) == len(codewordBytes) && fresh(codewordsInts) && (forall k int :: 0 <= k && k < len(codewordBytes) ==> codewordsInts[k] == int(codewordBytes[k]))
+//@   ensures e != nil ==> forall k int :: 0 <= k && k < len(codewordBytes) ==> codewordBytes[k] == old(codewordBytes[k])
+//@   ensures forall k int :: numDataCodewords <= k && k < len(codewordBytes) ==> codewordBytes[k] == old(codewordBytes[k])
+//@   internal e == nil ==> forall k int :: 0 <= k && k < numDataCodewords ==> codewordBytes[k] == byte(codewordsInts[k])
+//@   loop 0: invariant 0 <= i && i <= numCodewords && len(codewordsInts) == numCodewords && fresh(codewordsInts) && (forall k int :: 0 <= k && k < i ==> codewordsInts[k] == int(codewordBytes[k]))
+//@   loop 0: decreases numCodewords - i
+//@   loop 1: invariant 0 <= i && i <= numDataCodewords && len(codewordsInts) == numCodewords && (forall k int :: 0 <= k && k < i ==> codewordBytes[k] == byte(codewordsInts[k])) && (forall k int :: i <= k && k < len(codewordBytes) ==> codewordBytes[k] == old(codewordBytes[k]))
+//@   loop 1: decreases numDataCodewords - i
